@@ -137,11 +137,20 @@ Qed.
 Definition progress (it : ritem) : bool :=
   match it with RLine _ | RInval | R2big => true | _ => false end.
 
-Lemma nread_ns s :
-  good s ->
-  ns (fun it s' => s_ssl s' = s_ssl s /\ avail s' <= avail s /\ (progress it = true -> avail s' < avail s)) (nread s).
+Lemma purge_facts s :
+  s_ssl (purge s) = s_ssl s /\ avail (purge s) <= avail s /\ (good s -> good (purge s)).
 Proof.
-  intros Hg. pose proof LB as HLB. unfold nread.
+  unfold purge. destruct (ST_PURGES && negb (Bool.eqb (s_innssl s) (s_ssl s))).
+  - split; [reflexivity|]. split; [unfold avail, chan; cbn; lia|]. intros _. unfold good. cbn. lia.
+  - split; [reflexivity|]. split; [lia|auto].
+Qed.
+
+Lemma nread_ns s0 :
+  good s0 ->
+  ns (fun it s' => s_ssl s' = s_ssl s0 /\ avail s' <= avail s0 /\ (progress it = true -> avail s' < avail s0)) (nread s0).
+Proof.
+  intros Hg0. pose proof LB as HLB. destruct (purge_facts s0) as (Hps & Hpa & Hpg). specialize (Hpg Hg0).
+  unfold nread. set (s := purge s0) in *. assert (Hg : good s) by exact Hpg.
   destruct (net_read2 {| inn := s_inn s; en := chan s |}) as [it r] eqn:En.
   assert (Hl1 : length (inn {| inn := s_inn s; en := chan s |}) <= LINEINBUF - 1) by (unfold good in Hg; simpl; lia).
   destruct (net_read2_spec _ it r Hl1 En) as (Hit & _).
@@ -149,18 +158,18 @@ Proof.
   unfold total in Hit. cbn [inn en] in Hit.
   assert (Hav : avail (upd_net s (inn r) (en r)) = length (inn r) + length (rest (en r))).
   { unfold avail, chan, upd_net. destruct (s_ssl s) eqn:E; cbn; rewrite ?E; reflexivity. }
-  assert (Hssl : s_ssl (upd_net s (inn r) (en r)) = s_ssl s) by (unfold upd_net; destruct (s_ssl s) eqn:E; cbn; congruence).
+  assert (Hssl : s_ssl (upd_net s (inn r) (en r)) = s_ssl s0) by (rewrite <- Hps; unfold upd_net; destruct (s_ssl s) eqn:E; cbn; congruence).
   assert (Hgood : good (upd_net s (inn r) (en r))) by (unfold good, upd_net; destruct (s_ssl s); cbn; exact Hlen).
   assert (Hav0 : avail s = length (s_inn s ++ rest (chan s))) by (unfold avail; now rewrite app_length).
   destruct it as [l| | | | |]; cbn [ns erase item_ok] in *; unfold total in Hit; cbn [inn en] in Hit.
   - destruct Hit as (Hcut & _). split; [exact Hgood|]. split; [exact Hssl|].
-    cbn [log]. change (avail (log _ ?x)) with (avail x). rewrite Hav, Hav0, Hcut, !app_length. simpl. split; [lia|intros _; lia].
+    cbn [log]. change (avail (log _ ?x)) with (avail x). rewrite Hav. rewrite Hav0, Hcut, !app_length in Hpa. simpl in Hpa. split; [lia|intros _; lia].
   - destruct Hit as (j & Hj & Hcut). split; [exact Hgood|]. split; [exact Hssl|].
-    change (avail (log _ ?x)) with (avail x). rewrite Hav, Hav0, Hcut, !app_length.
-    destruct j; [congruence|]. simpl. split; [lia|intros _; lia].
+    change (avail (log _ ?x)) with (avail x). rewrite Hav. rewrite Hav0, Hcut, !app_length in Hpa.
+    destruct j; [congruence|]. simpl in Hpa. split; [lia|intros _; lia].
   - destruct Hit as (j & Hj & Hcut). split; [exact Hgood|]. split; [exact Hssl|].
-    change (avail (log _ ?x)) with (avail x). rewrite Hav, Hav0, Hcut, !app_length.
-    destruct j; [congruence|]. simpl. split; [lia|intros _; lia].
+    change (avail (log _ ?x)) with (avail x). rewrite Hav. rewrite Hav0, Hcut, !app_length in Hpa.
+    destruct j; [congruence|]. simpl in Hpa. split; [lia|intros _; lia].
   - destruct (net_read2_reset _ _ En) as (Hi0 & Hr0). split; [exact Hgood|]. split; [exact Hssl|].
     change (avail (log _ ?x)) with (avail x). rewrite Hav, Hi0, Hr0. simpl. split; [lia|discriminate].
   - exact I.
@@ -287,16 +296,6 @@ Proof.
   apply IH; [exact Hg1|]. assert (avail s1 < avail s) by (apply Hlt; apply Z.leb_le; lia). lia.
 Qed.
 
-Lemma data_pending_good early s : good s -> good (snd (data_pending early s)).
-Proof.
-  intros Hg. pose proof LB as HLB. unfold data_pending. destruct (s_inn s) eqn:Ei; [|exact Hg].
-  destruct (cur (s_clr s)).
-  - destruct early; [|exact Hg].
-    destruct (next_segment (future (s_clr s))) as [[[|b c'] f]|]; cbn [snd]; try exact Hg.
-    unfold good. cbn. lia.
-  - cbn [snd]. unfold good. cbn. lia.
-Qed.
-
 Lemma tls_init_ns c tlsa s : good s -> ns (fun _ _ => True) (tls_init c tlsa s).
 Proof.
   intros Hg. unfold tls_init.
@@ -308,10 +307,7 @@ Proof.
   eapply ns_bind; [apply (tls_reply_loop_ns _ i0 s1 Hg1); lia|].
   intros i s2 Hg2 _.
   destruct (negb (Z.eqb i ST_STARTTLS_OK)); [split; [exact Hg2|exact I]|].
-  assert (Hg3 : good (snd (if ST_CHECKS_PENDING then data_pending (c_early c) s2 else (0%Z, s2)))).
-  { destruct ST_CHECKS_PENDING; [now apply data_pending_good|exact Hg2]. }
-  destruct (if ST_CHECKS_PENDING then data_pending (c_early c) s2 else (0%Z, s2)) as [p s3]. cbn [snd] in Hg3.
-  destruct (negb (Z.eqb p 0)); [split; [exact Hg3|exact I]|].
+  assert (Hg3 : good (set_clr (s_inn s2) {| cur := []; future := c_post c |} s2)) by exact Hg2.
   destruct (negb (N.eqb (c_hs c) 0)); [split; [exact Hg3|exact I]|].
   destruct (pinned c || Nat.ltb 0 usable); [|split; [exact Hg3|exact I]].
   destruct (negb (N.eqb (c_verify c) 0)); split; try exact Hg3; exact I.
@@ -329,7 +325,7 @@ Proof.
   apply IH; [exact Hg1|]. apply Z.ltb_lt in Et. assert (avail s1 < avail s) by (apply Hlt; apply Z.leb_le; lia). lia.
 Qed.
 
-Lemma next_ns (m : res unit) : ns (fun _ _ => True) m -> ns (fun (_ : bool) _ => True) (rdo (_, s') <- m; Ret false s').
+Lemma next_ns (m : res unit) : ns (fun _ _ => True) m -> ns (fun (_ : option Z) _ => True) (rdo (_, s') <- m; Ret None s').
 Proof. intros H. eapply ns_bind; [exact H|]. intros u s' Hg _. split; [exact Hg|exact I]. Qed.
 
 Lemma conn_iter_ns k c tlsa s : good s -> ns (fun _ _ => True) (conn_iter k c tlsa s).
@@ -359,7 +355,6 @@ Proof.
     split; [exact Hg5|exact I].
   - destruct (s_xtls s3); [apply next_ns; now apply quitmsg_ns|].
     destruct (Nat.ltb 0 (length tlsa)); [apply next_ns; now apply quitmsg_ns|].
-    destruct (ST_PINNED_NEEDS_TLS && pinned c); [apply next_ns; now apply quitmsg_ns|].
     split; [exact Hg3|exact I].
 Qed.
 
@@ -368,7 +363,7 @@ Proof.
   induction todo as [|c todo IH]; intros k s Hg; cbn [connect_mx].
   - split; [|exact I]. destruct (asks_tlsa all); exact Hg.
   - eapply ns_bind; [apply conn_iter_ns; destruct (asks_tlsa all); exact Hg|].
-    intros ok s1 Hg1 _. destruct ok; [split; [exact Hg1|exact I]|now apply IH].
+    intros r s1 Hg1 _. destruct r; [split; [exact Hg1|exact I]|now apply IH].
 Qed.
 
 (** the model of main() always ends in exit(): it never runs out of fuel *)
@@ -377,7 +372,7 @@ Proof.
   unfold run. pose proof LB as HLB.
   assert (Hg0 : good (init_st k)) by (unfold good; cbn; lia).
   pose proof (connect_mx_ns (k_conns k) (k_conns k) 0 (init_st k) Hg0) as H.
-  destruct (connect_mx (k_conns k) 0 (k_conns k) (init_st k)) as [ok s|s|s]; cbn [rbind ns] in *; [|exact I|contradiction].
-  destruct H as (Hg & _). destruct ok; [|exact I].
-  apply shutdown_clean_exits. exact Hg.
+  destruct (connect_mx (k_conns k) 0 (k_conns k) (init_st k)) as [r s|s|s]; cbn [rbind ns] in *; [|exact I|contradiction].
+  destruct H as (Hg & _). destruct r as [[c g]|]; [|exact I].
+  destruct (ST_PINNED_NEEDS_TLS && negb (s_ssl s) && pinned c); apply shutdown_clean_exits; exact Hg.
 Qed.
